@@ -81,4 +81,12 @@ PROPS = {
         assumptions=["kernel side simulated at call granularity (consume 1/all, post 1/all); the index array is the identity as set up by setup_io_uring",
                      "bounded by 2*entries+6 application operations per state space; ring sizes 1,2,4 (thorough: 8)"],
     ),
+
+    "C07": dict(
+        level="exploration",
+        technique="bounded-exhaustive enumeration of all small environment blocks x keys and argv lists through the real lookup/iterator code (hook H2); exec of real no-libc binaries in each link mode with enumerated argv/envp shapes",
+        steps=[_s("h-env", None, name="env-inproc")],
+        assumptions=["keys that are empty or contain '=' are not judged (POSIX names cannot contain '=')",
+                     "vDSO-vs-syscall clock agreement is sampled, not enumerated"],
+    ),
 }
